@@ -384,6 +384,43 @@ impl Check for C13 {
                 }
             }
         }
+        // types with derived impls (one attribute listing both traits, two stacked attributes, one
+        // trait only), used: the order of the generated impls must not depend on the process
+        if d.chance(90) {
+            let fi = d.below(files.len());
+            let n = 1 + d.below(3);
+            let mut decls = String::new();
+            let mut uses = vec![];
+            for j in 0..n {
+                let attrs = match d.below(4) {
+                    0 => "#[derive(ToString, ToJson)]\n",
+                    1 => "#[derive(ToJson, ToString)]\n",
+                    2 => "#[derive(ToString)]\n#[derive(ToJson)]\n",
+                    _ => "#[derive(ToJson)]\n",
+                };
+                let both = !attrs.starts_with("#[derive(ToJson)]\n") || attrs.contains("ToString");
+                if d.bool() {
+                    decls.push_str(&format!("{attrs}struct Dv{j} {{ a: int32, b: int32 }}\n"));
+                    uses.push(format!("Dv{j} {{ a: {j}, b: 2 }}.to_json()"));
+                    if both {
+                        uses.push(format!("Dv{j} {{ a: {j}, b: 3 }}.to_string()"));
+                    }
+                } else {
+                    decls.push_str(&format!("{attrs}enum Dw{j} {{ Da{j}, Db{j}(int32) }}\n"));
+                    uses.push(format!("Dw{j}::Db{j}({j}).to_json()"));
+                    if both {
+                        uses.push(format!("Dw{j}::Da{j}.to_string()"));
+                    }
+                }
+            }
+            decls.push_str(&format!("fn derived_{fi}() -> string {{\n    {}\n}}\n", uses.join(" + ")));
+            files[fi].1.push('\n');
+            files[fi].1.push_str(&decls);
+            labels.push("derive>=1".into());
+            if decls.contains("ToString, ToJson") || decls.contains("ToJson, ToString") || decls.contains("#[derive(ToString)]\n#[derive(ToJson)]") {
+                labels.push("derive:both-traits".into());
+            }
+        }
         // a random creation order of the files
         let mut perm: Vec<usize> = (0..files.len()).collect();
         for i in 0..perm.len() {
@@ -416,6 +453,6 @@ impl Check for C13 {
         ]
     }
     fn required_labels(&self, _tier: Tier) -> Vec<&'static str> {
-        vec!["stage:ok", "stage:typer", "diagnostics>=2", "imports>=2", "processes", "multi-file", "shape:diamond"]
+        vec!["stage:ok", "stage:typer", "diagnostics>=2", "imports>=2", "processes", "multi-file", "shape:diamond", "derive:both-traits", "extern-go>=2"]
     }
 }
